@@ -243,6 +243,7 @@ func runC26(c *Ctx) {
 	r.Rule("C26.R2", "with the guard's fact len - headerLength >= K (padding >= 0, headerLength >= its constant part), every index and slice bound of the buffer used after the guard lies inside the received length; the OSN width K is the same in the guard, the sequence-number copy, the payload move and the length handed on", 13)
 	r.Rule("C26.R3", "the rewritten payload type and SSRC come from PayloadType()/SSRC() of the track whose repair interceptor is read, the marker bit is preserved (b[1]&0x80), the SSRC is stored big-endian at bytes 8..11, sequence-number bytes 2..3 are the first two payload bytes in order, and the original payload type / sequence number / SSRC are saved into the attributes before those bytes are overwritten", 9)
 	r.Rule("C26.R4", "TrackRemote.read copies the RTX packet out before releasing its buffer and returns the packet's own attributes", 2)
+	r.Rule("C26.R5", "RTP header-length arithmetic (RFC 3550): CC, X and P come from byte 0 with masks 0x0F/0x10/0x20; the extension length is read at an offset that depends on CC; the OSN offset depends on CC and on the extension length and is built from 12 and 4", 6)
 	r.NotCovered = append(r.NotCovered,
 		"the header-length arithmetic (uint16 wrap for extension lengths >= 16380 words), the extension-length read b[hdr+2:hdr+4] and the padding read b[len-1] before the guard (len = 0 panics), stale bytes beyond len",
 		"a payload type >= 128 on the track would clobber the marker bit (values come from SDP payload types)",
@@ -258,6 +259,7 @@ func runC26(c *Ctx) {
 	c26R2(x)
 	c26R3(x)
 	c26R4(c)
+	c26R5(c)
 	g7DebugDump(c)
 }
 
